@@ -1149,7 +1149,10 @@ FUNCS = [
     ('gen_identify', 'AuthTktCookieHelper.identify', '(c : cfg) (r : req) (st : state) : state * idres',
      SELF_REQ, _ret_identify, _raise_identify, True),
 ]
-TRANSLATED = [q for _, q, _, _, _, _, _ in FUNCS]
+# every source function whose control flow is regenerated on every run (coverage_map.py reads this); the nested
+# reissue callback is matched structurally (Tr.nested_def, fail-closed) as part of translating identify
+TRANSLATED = ['%s:%s' % (AUTH, q) for _, q, _, _, _, _, _ in FUNCS] + [
+    AUTH + ':AuthTktCookieHelper.identify.reissue_authtkt']
 
 
 def translate_tree(src_root):
